@@ -65,9 +65,51 @@ pub fn gen_lagging_constant(t: &mut Tape) -> (Program, ProgInfo) {
     (Program { isa, items }, info)
 }
 
+/// v2 directed template: a statically known prefix, then a reservation / alignment / address whose operand is only
+/// known from labels further down, then a label and an instruction of the short/long family naming it:
+///     #d8 .. / #res rsz / buf_end: / lag buf_end / tstart: / #res K / tend: / lag tend / rsz = tend - tstart
+pub fn gen_moving_directive_behind_static_prefix(t: &mut Tape) -> (Program, ProgInfo) {
+    let zeros = [0u32; 4];
+    let (base, _) = gen_lagging_constant(&mut Tape::new(&zeros));
+    // only the instruction set of that template is reused (the two `lag` rules)
+    let mut isa = IsaGen { size_static: false, asserts: true }.gen(t);
+    for r in base.isa.blocks[0].rules.iter().filter(|r| r.mnemonic == "lag") {
+        isa.blocks[0].rules.push(r.clone());
+    }
+    let lit = crate::gen::expr::lit_of;
+    let mut items: Vec<Item> = Vec::new();
+    let npre = t.draw(4) as u64;
+    for k in 0..npre {
+        items.push(Item::Data { width: Some(8), elems: vec![lit(k + 1)] });
+    }
+    let k = *t.pick(&[0x08u64, 0xf0, 0xf8, 0xfb, 0xfc, 0xfd, 0xfe, 0x100, 0x140]);
+    let decl = Item::Const { dots: 0, name: "rsz".into(), e: E::Bin(BinOp::Sub, Box::new(E::Var("tend".into())), Box::new(E::Var("tstart".into()))), noemit: false };
+    let early = t.chance(1, 3);
+    if early {
+        items.push(decl.clone());
+    }
+    match t.draw(3) {
+        0 => items.push(Item::Res(E::Var("rsz".into()))),
+        1 => items.push(Item::Addr(E::Bin(BinOp::Add, Box::new(E::Var("rsz".into())), Box::new(lit(npre))))),
+        _ => items.push(Item::Res(E::Bin(BinOp::Sub, Box::new(E::Var("tend".into())), Box::new(E::Var("tstart".into()))))),
+    }
+    items.push(Item::Label { dots: 0, name: "buf_end".into() });
+    items.push(Item::Instr(Instr { mnemonic: "lag".into(), ops: vec![InsOp { wrap: Wrap::None, op: IOp::Word("buf_end".into()) }] }));
+    items.push(Item::Label { dots: 0, name: "tstart".into() });
+    items.push(Item::Res(lit(k)));
+    items.push(Item::Label { dots: 0, name: "tend".into() });
+    items.push(Item::Instr(Instr { mnemonic: "lag".into(), ops: vec![InsOp { wrap: Wrap::None, op: IOp::Word("tend".into()) }] }));
+    items.push(Item::Data { width: Some(8), elems: vec![lit(0xbb)] });
+    if !early {
+        items.push(decl);
+    }
+    let info = ProgInfo { n_instr: 2, symbol_operands: 2, forward_refs: true, ..Default::default() };
+    (Program { isa, items }, info)
+}
+
 pub fn gen_cascade(t: &mut Tape, max_items: usize) -> (Program, ProgInfo) {
     if crate::engine::gen_version() >= 2 && t.chance(1, 16) {
-        return gen_lagging_constant(t);
+        return if t.flip() { gen_lagging_constant(t) } else { gen_moving_directive_behind_static_prefix(t) };
     }
     let isa = IsaGen { size_static: false, asserts: true }.gen(t);
     let shadow = t.chance(1, 5);
@@ -125,11 +167,40 @@ pub fn claimed_sizes(p: &Program, ok: &sut::AsmOk) -> Option<HashMap<usize, usiz
             _ => {}
         }
     }
-    if k == ok.spans.len() {
-        Some(out)
-    } else {
-        None
+    if k != ok.spans.len() {
+        return None;
     }
+    // for #res / #align / #addr: the output position the assembler gives the next item that has a span
+    // (key = number of items + item index; used only when the directive's amount depends on the layout itself)
+    let mut k = 0;
+    let n = p.items.len();
+    let mut pending: Vec<usize> = Vec::new();
+    for (i, it) in p.items.iter().enumerate() {
+        let span_here = match it {
+            Item::Label { .. } | Item::Instr(_) => Some(k),
+            Item::Data { elems, .. } if !elems.is_empty() => Some(k),
+            _ => None,
+        };
+        if let Some(sk) = span_here {
+            if let Some(off) = ok.spans[sk].offset {
+                // (two directives in a row share one following position: which of them moved is not told apart)
+                if pending.len() == 1 {
+                    out.insert(n + pending[0], off);
+                }
+                pending.clear();
+            } else {
+                pending.clear();
+            }
+        }
+        match it {
+            Item::Label { .. } | Item::Instr(_) => k += 1,
+            Item::Data { elems, .. } => k += elems.len(),
+            Item::Res(_) | Item::Align(_) | Item::Addr(_) => pending.push(i),
+            Item::Bank(_) | Item::BankDef(_) => pending.clear(),
+            _ => {}
+        }
+    }
+    Some(out)
 }
 
 /// the certificate: None = the claimed success is self-consistent
